@@ -227,7 +227,8 @@ func (x *Exec) fldRef(st *State, T types.Type, field int, base *Term) *Term {
 	if !x.factDone[key] || true {
 		// injectivity and non-nil-ness of the derived location (instantiated per occurrence)
 		x.assumeIn(st, mkEq(ufApp(inv, r), base))
-		x.assumeIn(st, mkImplies(mkNe(base, mkInt(0)), mkNe(r, mkInt(0))))
+		// derived locations (fields of struct type, slice elements) live below every allocated object and every global
+		x.assumeIn(st, mkImplies(mkNe(base, mkInt(0)), mkCmp("<=", r, mkInt(-1000000))))
 	}
 	return r
 }
@@ -240,7 +241,7 @@ func (x *Exec) elemRef(st *State, T types.Type, arr, idx *Term) *Term {
 	r := ufApp(f, arr, idx)
 	x.assumeIn(st, mkEq(ufApp(invA, r), arr))
 	x.assumeIn(st, mkEq(ufApp(invI, r), idx))
-	x.assumeIn(st, mkNe(r, mkInt(0)))
+	x.assumeIn(st, mkCmp("<=", r, mkInt(-1000000)))
 	return r
 }
 
@@ -319,12 +320,17 @@ func (x *Exec) funcRef(f *FuncV) *Term {
 	if len(f.Bindings) > 0 {
 		return x.fresh(name+"_closure", SInt)
 	}
-	return mkVar(name, SInt)
+	t := mkVar(name, SInt)
+	x.knownFuncs[t.String()] = f
+	return t
 }
 
 func (x *Exec) load(st *State, m memView, p *PtrV) Value {
 	t := p.Elem
-	if p.Global != nil && p.Kind == PRef && x.immutableGlobal(p.Global) {
+	if p.Global != nil && x.inInit && p.Global.Name() == "init$guard" {
+		return tFalse
+	}
+	if p.Global != nil && p.Kind == PRef && !x.initRan[p.Global.Pkg.Pkg.Path()] && x.immutableGlobal(p.Global) {
 		if c := x.initConst(p.Global); c != nil && !(x.spec != nil && x.spec.Unknown[p.Global.Name()]) {
 			return x.constVal(c)
 		}
@@ -344,6 +350,12 @@ func (x *Exec) load(st *State, m memView, p *PtrV) Value {
 		v, ok := fr.locals[p.Alloc]
 		if !ok {
 			panic("load of unset local " + p.Alloc.Comment)
+		}
+		return v
+	case PLocalField:
+		v := st.frames[p.Frame].locals[p.Alloc]
+		for _, i := range p.Path {
+			v = v.(*StructV).F[i]
 		}
 		return v
 	case PRef:
@@ -380,6 +392,18 @@ func (x *Exec) store(st *State, p *PtrV, v Value) {
 	switch p.Kind {
 	case PLocal:
 		st.frames[p.Frame].locals[p.Alloc] = v
+	case PLocalField:
+		var upd func(cur Value, path []int) Value
+		upd = func(cur Value, path []int) Value {
+			if len(path) == 0 {
+				return v
+			}
+			sv := cur.(*StructV)
+			n := &StructV{T: sv.T, F: append([]Value{}, sv.F...)}
+			n.F[path[0]] = upd(sv.F[path[0]], path[1:])
+			return n
+		}
+		st.frames[p.Frame].locals[p.Alloc] = upd(st.frames[p.Frame].locals[p.Alloc], p.Path)
 	case PRef:
 		if _, ok := isStructType(t); ok {
 			x.storeStructAt(st, t, p.Ref, v)
